@@ -162,7 +162,7 @@ def udp_hostile(run, r, n, gen_layout, probe_reads):
             continue
         addr, probes = probe_reads('tcp', layout, 1)
         probe = probes[0][1]
-        junk = [bytes(r.randrange(256) for _ in range(k)) for k in (1, 2, 3, 5, 6, 7)] + [probe[:4], probe[:9], bytes(r.randrange(256) for _ in range(r.randint(8, 300)))]
+        junk = [bytes(r.randrange(256) for _ in range(k)) for k in (1, 2, 3, 5, 6, 7)] + [probe[:4], probe[:9], b'', bytes(r.randrange(256) for _ in range(r.randint(8, 300)))]
         r.shuffle(junk)
         try:
             RN.udp_exchange(srv.port, junk, expect=[0] * len(junk), wait=0.3)
